@@ -51,6 +51,22 @@ func c07RecipeFormatted(kind int, seed int64, rec *visitRec) (f *jen.File, small
 		if r.Intn(3) == 0 {
 			f.PackagePrefix = "pk"
 		}
+		if r.Intn(4) == 0 {
+			// every path the Dict mentions was imported blank before (the blank entries are upgraded while the
+			// Dict renders; the import table does not grow)
+			ps := []string{collidePaths[r.Intn(4)], collidePaths[r.Intn(4)], collidePaths[r.Intn(4)]}
+			f.Anon(ps...)
+			d := jen.Dict{}
+			for i, p := range ps {
+				d[jen.Qual(p, fmt.Sprintf("K%d", i))] = jen.Lit(i)
+			}
+			f.Var().Id("m").Op("=").Map(jen.Int()).Int().Values(d)
+			return f, len(d), fmt.Sprintf("dict-over-blank-imports%v", ps)
+		}
+		if r.Intn(3) == 0 {
+			// blank imports of paths that the Dict then refers to by name (the blank entry is upgraded)
+			f.Anon(collidePaths[r.Intn(4)], collidePaths[r.Intn(4)], collidePaths[4+r.Intn(4)])
+		}
 		n := 2 + r.Intn(5)
 		if r.Intn(5) == 0 {
 			n = 7 + r.Intn(30)
